@@ -2,8 +2,8 @@
 import itertools
 from . import contracts, front
 from .interp import Interp, run_global_ctors
-from .kernel import (KInterp, KV, KPtr, Case, St, Undecided, sym64, BOXES, TS_HI, final_poly, witness_search, const, Mask)
-from .poly import Poly, C, P, M64, M32
+from .kernel import (KInterp, KV, KPtr, Case, St, Undecided, sym64, BOXES, TS_HI, final_poly, witness_search, const, Mask, decide_gt)
+from .poly import Poly, C, P, M64, M32, MSB
 from .ir import IRError
 
 _gc = {}
@@ -163,8 +163,38 @@ def prove(mod, name, ins, outs, spec, W=1, lanes=None, exact=False, alias=None, 
                 continue
             res.asm += K.asm_info
             res.callsites += len(K.callsites)
+            # the shifted flag is bookkeeping (pattern = value + 2^63 mod 2^64): an output carried with the other flag than the
+            # contract names is re-expressed, not reported - two cells, on either side of 2^63
+            expanded = []
             for st2, ret in outsts:
-                cs = st2.case
+                if not st2.case.feasible():
+                    continue
+                alts = [(st2, st2.case, {})]
+                try:
+                    for k in range(nout if not ret_out else 0):
+                        o = st2.mem.get(KPtr('out%d' % k, 8 * lane))
+                        if o is None:
+                            continue
+                        nxt = []
+                        for st_, c_, ov in alts:
+                            o2 = K.tokv(c_, K.resolve(c_, o))
+                            if bool(o2.sh) == bool(outs[k][1]):
+                                nxt.append((st_, c_, ov))
+                                continue
+                            for c3, big in decide_gt(c_, KV(o2.p, o2.lo, o2.hi), const(MSB - 1)):
+                                if big:
+                                    v2 = KV(o2.p - MSB, max(0, o2.lo - MSB), o2.hi - MSB, 1 - o2.sh)
+                                else:
+                                    v2 = KV(o2.p + MSB, o2.lo + MSB, min(o2.hi, MSB - 1) + MSB, 1 - o2.sh)
+                                ov2 = dict(ov)
+                                ov2[k] = v2
+                                nxt.append((st_, c3, ov2))
+                        alts = nxt
+                except Undecided:
+                    alts = [(st2, st2.case, {})]
+                for st_, c_, ov in alts:
+                    expanded.append((st_, ret, c_, ov))
+            for st2, ret, cs, override in expanded:
                 if not cs.feasible():
                     continue
                 res.cells += 1
@@ -173,6 +203,9 @@ def prove(mod, name, ins, outs, spec, W=1, lanes=None, exact=False, alias=None, 
                     if ret_out:
                         vals.append(K.tokv(cs, ret))
                     for k in range(nout if not ret_out else 0):
+                        if k in override:
+                            vals.append(override[k])
+                            continue
                         o = st2.mem.get(KPtr('out%d' % k, 8 * lane))
                         if o is None:
                             raise Undecided('output %d lane %d is never written' % (k, lane))
@@ -332,6 +365,14 @@ def prove_cells(mod, name, nargs, in_cells, out_cells, specs, alias=None, seed=0
                         kind = kind or 'range'
                     if problems:
                         wit = witness_search(cs, final_poly(cs, diff, True) if cs.subst else diff, seed, exact=exact) if z.d else rwit
+                        # values returned by summarised callees are known only up to their residue: a witness is kept only when the
+                        # cell's constraints do not mention them (otherwise the concrete inputs need not reach this cell)
+                        summ_syms = set()
+                        for sb in cs.subst:
+                            if len(sb) > 2 and not sb[2]:
+                                summ_syms |= {sb[0], sb[0][:-1] + 'h', sb[0][:-1] + 'l'}
+                        if wit is not None and summ_syms and any(p_.vars() & summ_syms for p_, op_ in cs.cons):
+                            wit = None
                         res.failures.append(dict(lane=0, box={}, detail='; '.join(problems), witness=wit, constraints=[], kind=kind))
                         break
             except (Undecided, KeyError) as e:
@@ -397,3 +438,32 @@ def prove_predicate(mod, name, nargs, in_cells, expr, seed=0, budget=6000):
                                          detail='returns false although the operands can be congruent (expr = %d*p is possible in the cell) differs' % k))
                 break
     return res
+
+
+def scalar_summaries(mod):
+    """kernel-mode summaries of the scalar primitives add / sub / mul(result, in1, in2) (proved for all 64-bit operands by
+    C01): the result is a fresh 64-bit value congruent to the ring operation on the operand cells"""
+    S = {}
+    for c in contracts.SCALAR:
+        try:
+            n = mod.find(c['sig'])
+        except KeyError:
+            continue
+
+        def h(K, st, args, op=c['op']):
+            cc = st.case.copy()
+            st2 = st.fork(cc)
+            r, a, b = args
+            A = K.tokv(cc, K.resolve(cc, K.load_cell(st2, KPtr(a.obj, a.off))))
+            B = K.tokv(cc, K.resolve(cc, K.load_cell(st2, KPtr(b.obj, b.off))))
+            if A.sh or B.sh:
+                raise Undecided('shifted value passed to a scalar primitive')
+            cc.n += 1
+            nm = 'f%d' % cc.n
+            v = sym64(cc, nm, BOXES['u64'][0], 0)
+            spec = A.p + B.p if op == 'add' else (A.p - B.p if op == 'sub' else A.p * B.p)
+            cc.subst.append((nm + 'l', spec - M32 * Poly.var(nm + 'h'), False))
+            st2.mem[KPtr(r.obj, r.off)] = v
+            return [(st2, None)]
+        S[n] = h
+    return S
